@@ -99,6 +99,7 @@ type proxyCfg struct {
 	IdPAdvertisedPKCE     []string      // code_challenge_methods_supported of the discovery document (nil = S256 and plain)
 	RedisRealTime         bool          // miniredis TTLs run down in real time (they are otherwise frozen): locks and entries really expire
 	RedisReadTimeout      time.Duration // read_timeout of the Redis client (0 = the client's default of 3 s)
+	RelativeRedirectURL   bool          // --relative-redirect-url: the OAuth redirect URI is sent as a path
 	ShowDebugOnError      bool          // --show-debug-on-error: error pages show the underlying error text
 	RequestLoggingFormat  string        // --request-logging-format ("" = default)
 	AuthLoggingFormat     string        // --auth-logging-format ("" = default)
@@ -228,6 +229,7 @@ func newEnv(c *suiteCtx, cfg proxyCfg) (*testEnv, error) {
 		}
 	}
 	o.Server.BindAddress = cfg.BindAddress
+	o.RelativeRedirectURL = cfg.RelativeRedirectURL
 	o.Templates.Debug = cfg.ShowDebugOnError
 	if cfg.RequestLoggingFormat != "" {
 		o.Logging.RequestFormat = cfg.RequestLoggingFormat
@@ -269,7 +271,9 @@ func newEnv(c *suiteCtx, cfg proxyCfg) (*testEnv, error) {
 	if len(cfg.AudienceClaims) > 0 {
 		pr.OIDCConfig.AudienceClaims = cfg.AudienceClaims
 	}
-	if cfg.EmailClaim != "" {
+	if cfg.EmailClaim == "<empty>" { // an alpha configuration that leaves the key out: no e-mail claim at all (not the default)
+		pr.OIDCConfig.EmailClaim = ""
+	} else if cfg.EmailClaim != "" {
 		pr.OIDCConfig.EmailClaim = cfg.EmailClaim
 	}
 	if cfg.GroupsClaim != "" {
